@@ -16,6 +16,7 @@ func init() { Registry["C18"] = c18 }
 const deschedLoadPkg = "pkg/descheduler/framework/plugins/loadaware"
 
 func c18(c *Ctx) {
+	exactCmpIn(c, deschedLoadPkg, "descheduler loadaware", 3)
 	c18likeWithLike(c)
 	r := c.R
 	c18classify(c, deschedLoadPkg)
